@@ -1,7 +1,7 @@
 SPECIFICATION Spec
 CONSTANT Outcomes = {"ok", "fail", "killed"}
 CONSTANT SecondCheck = TRUE
-CONSTANT Launching = FALSE
+CONSTANT Launching = TRUE
 CONSTANT GuardedRead = TRUE
 INVARIANT TypeOK
 PROPERTY NoRelaunchOfSuccess
